@@ -217,7 +217,7 @@ def corpus():
 
 
 def gen_cases(rng, tier):
-    n_acc, n_scan, n_names, n_bad = {"quick": (900, 400, 300, 30), "thorough": (7000, 2500, 2000, 200),
+    n_acc, n_scan, n_names, n_bad = {"quick": (900, 400, 300, 30), "thorough": (20000, 6000, 3000, 300),
                                      "search": (1500, 500, 0, 0)}[tier]
     cases = []
     for _ in range(n_scan):
@@ -274,8 +274,7 @@ def run_impl(case):
         from cnvlib.antitarget import is_canonical_contig_name
         return bool(is_canonical_contig_name(i["name"]))
     from cnvlib import access
-    os.makedirs("/var/tmp/verif-c13", exist_ok=True)
-    d = tempfile.mkdtemp(dir="/var/tmp/verif-c13")
+    d = tempfile.mkdtemp(dir="/var/tmp", prefix="verif-c13-")
     try:
         fa = os.path.join(d, "genome.fa")
         with open(fa, "w", newline="") as f:
